@@ -180,7 +180,7 @@ def run(ctx):
             if isinstance(call, ast.Call) and call.args and isinstance(call.args[0], ast.JoinedStr):
                 lv = [v.value for v in call.args[0].values if isinstance(v, ast.FormattedValue)]
                 names = [x.loop for x in lv if isinstance(x, LoopVar)]
-                ok = len(names) == 2 and names[0] is outer and names[1] is inner
+                ok = len(names) == 2 and names[0] is outer.orig and names[1] is inner.orig
     ctx.ob('C13.R4', pi, ws[0][0].lineno, 'wells are created row-major over (row labels x column labels)', ok,
            fact=fact, why='the well array is not laid out rows x columns in label order', key='well array layout')
 
